@@ -513,6 +513,7 @@ func c14Loop(c *Ctx, r *Result, fn *ssa.Function, rtIface *types.Interface) {
 		}
 		return false
 	}
+	var writeLoop map[*ssa.BasicBlock]bool
 	var stale func(v ssa.Value, seen map[ssa.Value]bool, d int) string
 	stale = func(v ssa.Value, seen map[ssa.Value]bool, d int) string {
 		if v == nil || seen[v] || d > 40 {
@@ -526,7 +527,25 @@ func c14Loop(c *Ctx, r *Result, fn *ssa.Function, rtIface *types.Interface) {
 			if isPos(x) {
 				return ""
 			}
-			if isLoopHeaderPhi(x) && inLoop(x.Block()) {
+			// carried around the loop that writes — a variable of an earlier, finished loop (the
+			// literal cut into pieces first) is followed to what was put into it
+			// a pure counter (i, i+1, …) is a position, not data
+			pureCounter := true
+			for _, e := range x.Edges {
+				if _, isC := e.(*ssa.Const); isC {
+					continue
+				}
+				if bo, isBO := e.(*ssa.BinOp); isBO && bo.Op == token.ADD && bo.X == ssa.Value(x) {
+					if _, isC := bo.Y.(*ssa.Const); isC {
+						continue
+					}
+				}
+				pureCounter = false
+			}
+			if pureCounter {
+				return ""
+			}
+			if isLoopHeaderPhi(x) && inLoop(x.Block()) && (writeLoop == nil || writeLoop[x.Block()]) {
 				b := x.Block()
 				for j, pr := range b.Preds {
 					if b.Dominates(pr) {
@@ -572,7 +591,7 @@ func c14Loop(c *Ctx, r *Result, fn *ssa.Function, rtIface *types.Interface) {
 					if inLoop(x.Block()) && !inLoop(a.Block()) {
 						// a cell allocated outside the loop and written inside it carries values around the loop
 						for _, ref := range *a.Referrers() {
-							if st, ok := ref.(*ssa.Store); ok && st.Addr == ssa.Value(a) && inLoop(st.Block()) && !dominates(st, x) {
+							if st, ok := ref.(*ssa.Store); ok && st.Addr == ssa.Value(a) && inLoop(st.Block()) && (writeLoop == nil || writeLoop[st.Block()]) && !dominates(st, x) {
 								return "a variable written in an earlier iteration (" + a.Comment + ")"
 							}
 						}
@@ -645,6 +664,7 @@ func c14Loop(c *Ctx, r *Result, fn *ssa.Function, rtIface *types.Interface) {
 		nOut++
 		site := ord.key(key, "output", n)
 		pos := c.Pos(c.InstrPos(in))
+		writeLoop = sccOf(in.Block())
 		if s := stale(args[1], map[ssa.Value]bool{}, 0); s != "" {
 			r.Instance("R14e", site, pos, "finding", "output depends on "+s, true)
 			r.Report(Finding{Rule: "R14e", Site: site, Pos: pos,
